@@ -1,6 +1,7 @@
 import Modbus.Model.Tcp
 import Modbus.Lemmas.Basic
 import Modbus.Lemmas.Scan
+import Modbus.Lemmas.TcpHeader
 /-
 C09 — TCP extraction is sound.
 
@@ -33,48 +34,67 @@ theorem tcp_extract_sound (buf : Bytes) (n : Nat) (f : Tcp.Frame)
       buf[2] = 0 ∧ buf[3] = 0 ∧ (rd16 buf[4] buf[5]).toNat = n + 1 ∧
       f.transactionId = rd16 buf[0] buf[1] ∧ f.unitId = buf[6] ∧
       f.pdu = (buf.drop 7).take n ∧ f.pdu.length = n := by
-  unfold Tcp.extractFrame at h
-  split at h
-  · simp at h
-  split at h
-  · simp at h
-  simp only at h
-  split at h
-  next hlen =>
-    have hl : n + 7 ≤ buf.length := by omega
-    refine ⟨hl, ?_⟩
-    have hlt : (buf.take (7 + n)).length = 7 + n := by rw [List.length_take]; omega
-    have hr2 : read16 (buf.take (7 + n)) 2 = .ok (rd16 buf[2] buf[3]) := by
-      rw [read16_eq_ok (by omega)]; simp only [List.getElem_take]
-    have hr0 : read16 (buf.take (7 + n)) 0 = .ok (rd16 buf[0] buf[1]) := by
-      rw [read16_eq_ok (by omega)]; simp only [List.getElem_take]
-    have hr4 : read16 (buf.take (7 + n)) 4 = .ok (rd16 buf[4] buf[5]) := by
-      rw [read16_eq_ok (by omega)]; simp only [List.getElem_take]
-    have hi6 : idx (buf.take (7 + n)) 6 = .ok buf[6] := by
-      rw [idx_eq_ok (by omega)]; simp only [List.getElem_take]
-    rw [hr2] at h
-    simp only [Res.bind'_ok] at h
-    split at h
-    · simp at h
-    next hproto =>
-      rw [hr0, hr4, hi6] at h
-      simp only [Res.bind'_ok] at h
-      split at h
-      · simp at h
-      next hmlen =>
-        simp only [Res.ok.injEq, Option.some.injEq] at h
-        subst h
-        have hp : rd16 buf[2] buf[3] = 0 := by simpa using hproto
-        obtain ⟨p2, p3⟩ := rd16_eq_zero _ _ hp
-        refine ⟨p2, p3, ?_, rfl, rfl, ?_, ?_⟩
-        · exact Decidable.not_not.1 hmlen
-        · simp only
-          rw [List.drop_take]; congr 1; omega
-        · simp only [List.length_drop, List.length_take]; omega
-  · simp at h
+  obtain ⟨hl7, hp, hlen, rfl⟩ := Tcp.extractFrame_some h
+  have hl : n + 7 ≤ buf.length := by omega
+  obtain ⟨p2, p3⟩ := (Tcp.checkProtocolId_eq_ok_iff buf).1 hp (by omega)
+  have h45 := (Tcp.checkLengthField_eq_ok_iff buf n).1 hlen (by omega)
+  refine ⟨hl, p2, p3, h45, rfl, rfl, rfl, ?_⟩
+  simp only [List.length_take, List.length_drop]; omega
 
 example : Tcp.extractFrame sampleFrame 5 = .ok (some ⟨0x0102, 0x11, [0x01, 0x00, 0x01, 0x00, 0x02]⟩) := by
   decide +kernel
+
+/-! ### the header is verified before the size test (repair of `tcp::extract_frame`) -/
+
+/-- **the visible header decides first**: for a non-empty buffer and a claimed PDU length without
+overflow,
+
+* a visible protocol identifier (four bytes present) that is not 0 is an error — also when the buffer
+  is shorter than the ADU (`buf.length < 7 + n`; before the repair the answer then was 'incomplete');
+* with protocol identifier 0, a visible length field (six bytes present) other than `n + 1` is an error —
+  also when the buffer is shorter than the ADU;
+* the answer is 'incomplete' **exactly** when the visible part of the header is consistent (protocol
+  identifier 0 if four bytes are there, length field `n + 1` if six are) and the buffer is shorter than
+  `7 + n`. -/
+theorem tcp_extract_header_first (buf : Bytes) (n : Nat) (hne : buf ≠ []) (hn : 7 + n < usizeLimit) :
+    (∀ _h4 : 4 ≤ buf.length, ¬ (buf[2] = 0 ∧ buf[3] = 0) →
+      Tcp.extractFrame buf n = .err (.protocolNotModbus (rd16 buf[2] buf[3]))) ∧
+    (∀ _h6 : 6 ≤ buf.length, buf[2] = 0 → buf[3] = 0 → (rd16 buf[4] buf[5]).toNat ≠ n + 1 →
+      Tcp.extractFrame buf n = .err (.lengthMismatch (rd16 buf[4] buf[5]).toNat (n + 1))) ∧
+    (Tcp.extractFrame buf n = .ok none ↔
+      (∀ _h4 : 4 ≤ buf.length, buf[2] = 0 ∧ buf[3] = 0) ∧
+      (∀ _h6 : 6 ≤ buf.length, (rd16 buf[4] buf[5]).toNat = n + 1) ∧ buf.length < 7 + n) := by
+  refine ⟨?_, ?_, ?_⟩
+  · intro h4 hb
+    exact Tcp.extractFrame_proto_err hne hn (Tcp.checkProtocolId_bad h4 hb)
+  · intro h6 h2 h3 hl
+    exact Tcp.extractFrame_len_err hne hn (Tcp.checkProtocolId_good (by omega) h2 h3)
+      (Tcp.checkLengthField_bad n h6 hl)
+  · rw [← Tcp.checkProtocolId_eq_ok_iff, ← Tcp.checkLengthField_eq_ok_iff]
+    constructor
+    · intro h
+      rw [Tcp.extractFrame_eq hne hn] at h
+      rcases Tcp.checkProtocolId_cases buf with hp | ⟨_, _, hp⟩
+      · rw [hp, Res.bind'_ok] at h
+        rcases Tcp.checkLengthField_cases buf n with hl | ⟨_, _, hl⟩
+        · rw [hl, Res.bind'_ok] at h
+          refine ⟨hp, hl, ?_⟩
+          by_cases hlen : buf.length ≥ 7 + n
+          · rw [dif_pos hlen] at h; simp at h
+          · omega
+        · rw [hl] at h; cases h
+      · rw [hp] at h; cases h
+    · rintro ⟨hp, hl, hlt⟩
+      exact Tcp.extractFrame_short hne hn hp hl hlt
+
+/-- instances: eight bytes of a 12-byte candidate; protocol identifier 0x0001 / length field 7 / consistent -/
+example : Tcp.extractFrame ((sampleFrame.set 3 0x01).take 8) 5 = .err (.protocolNotModbus 1) ∧
+    Tcp.extractFrame ((sampleFrame.set 5 0x07).take 8) 5 = .err (.lengthMismatch 7 6) ∧
+    Tcp.extractFrame (sampleFrame.take 8) 5 = .ok none ∧
+    Tcp.extractFrame (sampleFrame.take 3) 5 = .ok none := by decide +kernel
+example : Tcp.extractFrame ((sampleFrame.set 3 0x01).take 8) 5
+    = .err (.protocolNotModbus (rd16 ((sampleFrame.set 3 0x01).take 8)[2] ((sampleFrame.set 3 0x01).take 8)[3])) :=
+  (tcp_extract_header_first ((sampleFrame.set 3 0x01).take 8) 5 (by decide) (by decide)).1 (by decide) (by decide)
 
 /-- the same with optional indexing instead of bound proofs -/
 theorem tcp_extract_sound' (buf : Bytes) (n : Nat) (f : Tcp.Frame)
